@@ -311,9 +311,18 @@ def execute(program, prefix, opcode=False, rng=None):
                     res = type(e).__name__
                 calls.append({"k": "tcall", "th": tid, "seq": i, "m": name, "res": res, "wserr": wserr, "pl": codec.pv(pl)})
         return body
-    for tid, ops in sorted(program['threads'].items()):
-        sched.spawn(tid, make(tid, ops))
-    choices = sched.run()
+    # Garbage of earlier executions (parsers, sessions: lomond objects with __del__ / generators written in traced files) must not be
+    # finalised inside a scheduled thread: its lines would be extra, unpredictable scheduling points.  Collect now, in this untraced
+    # thread, and keep the collector off while the schedule runs.
+    import gc
+    gc.collect()
+    gc.disable()
+    try:
+        for tid, ops in sorted(program['threads'].items()):
+            sched.spawn(tid, make(tid, ops))
+        choices = sched.run()
+    finally:
+        gc.enable()
     if sched.errors:
         raise W.MachineryError('thread program failed: %s' % sched.errors[:2])
     # decode the wire (independent decoder; compressed messages inflated by a context-takeover peer in wire order)
